@@ -119,7 +119,7 @@ def one(rng, crop, soil, method, i):
                     ("z_germ", [0.1, 0.2, 0.3, 0.35]), ("evap_z_max", [0.2, 0.3, 0.5])):
         if gen.chance(rng, 0.15):
             s["kw"][k] = gen.pick(rng, vals)
-    iw = gen.iwc_depth_spec(rng, s) if gen.chance(rng, 0.3) else gen.iwc_spec(rng, s)
+    iw = gen.iwc_depth_spec(rng, s, bottom=True) if gen.chance(rng, 0.3) else gen.iwc_spec(rng, s)
     sp = {"start": gen.fmt(start), "end": gen.fmt(end), "off_season": gen.chance(rng, 0.4), "weather": w,
           "soil": s, "crop": c, "iwc": iw,
           "irr": gen.irr_spec(rng, start, end, methods=(method,), planting=[int(x) for x in c["planting"].split("/")])}
